@@ -249,7 +249,7 @@ class Caches:
 
 def clear_all_caches():
     for name, mod in list(sys.modules.items()):
-        if name.startswith("pyrefact") and mod is not None:
+        if name.startswith("pyrefact") and mod is not None and name != "pyrefact.logs":
             for v in list(vars(mod).values()):
                 if hasattr(v, "cache_clear") and callable(v.cache_clear):
                     try:
@@ -353,12 +353,11 @@ def job_mechanics(job) -> list:
     return out
 
 
+JOBS = {"history": job_history, "mechanics": job_mechanics}      # other harness modules may register job kinds
+
+
 def run_job(job):
-    if job["kind"] == "history":
-        return job_history(job)
-    if job["kind"] == "mechanics":
-        return job_mechanics(job)
-    raise ValueError(job["kind"])
+    return JOBS[job["kind"]](job)
 
 
 # ------------------------------------------------------------------------------------------------
